@@ -28,15 +28,16 @@ def setup(common=None):
     _U["basedims"] = [d.length, d.time, d.temperature, d.mass, d.current_mks]
 
 
-UNAME = {"la": "la", "lb": "lb", "ta": "ta", "K": "K", "oc": "oc", "tl": "T*la", "na": "dimensionless", "lr": "lb/la", "J": "J", "Hz": "Hz", "bad": "nosuchunit"}
-DT = {"f8": "float64", "f4": "float32", "f2": "float16", "i8": "int64", "i4": "int32", "i2": "int16", "i1": "int8"}
+UNAME = {"la": "la", "lb": "lb", "ta": "ta", "K": "K", "oc": "oc", "tl": "T*la", "na": "dimensionless", "lr": "lb/la", "dC": "degC", "dF": "degF", "Rk": "R", "km": "km", "mi": "mile", "J": "J", "Hz": "Hz", "bad": "nosuchunit"}
+DT = {"f8": "float64", "f4": "float32", "f2": "float16", "i8": "int64", "i4": "int32", "i2": "int16", "i1": "int8", "u8": "uint64", "u4": "uint32", "u2": "uint16", "u1": "uint8"}
 
 
 class Tokens:
     """floats that are not 32-bit safe rationals -> [k, 0]; equal (within 4 ulp) floats share k"""
 
-    def __init__(self):
+    def __init__(self, rtol=1e-15):
         self.vals = []
+        self.rtol = rtol  # 0: floats share a token only when they are the same number (plain unit conversions)
 
     def num(self, x):
         if isinstance(x, (bool, int)) or (hasattr(x, "dtype") and x.dtype.kind in "biu"):
@@ -62,7 +63,7 @@ class Tokens:
         for k, v in enumerate(self.vals):
             if type(v) is type(x):
                 if isinstance(x, float):
-                    if abs(x - v) <= 1e-15 * abs(v):
+                    if x == v or abs(x - v) <= self.rtol * abs(v):
                         return [k + 1, 0]
                 elif v == x:
                     return [k + 1, 0]
@@ -141,11 +142,13 @@ def build(cfg):
     elif hasattr(reg, "_unit_system_id"):
         reg._unit_system_id = _U["regid"]
     ua, uq, Unit = _U["ua"], _U["uq"], _U["Unit"]
-    A = ua(np.array([1, 2, 4, 8], dtype=DT[cfg["dtA"]]), UNAME[cfg["uA"]], registry=reg)
+    # the initial numbers are the model's (MC_C18!InitNums, exported with every history)
+    iv = cfg.get("iv") or {"A": [1, 2, 4, 8], "B": [2, 4], "Q": [2], "C": [16, 32]}
+    A = ua(np.array(iv["A"], dtype=DT[cfg["dtA"]]), UNAME[cfg["uA"]], registry=reg)
     V = A[1:3]
-    B = ua(np.array([2, 4], dtype=DT[cfg["dtB"]]), UNAME[cfg["uB"]], registry=reg)
-    Q = uq(2.0, UNAME[cfg["uQ"]], registry=reg)
-    C = ua(np.array([16, 32], dtype=DT[cfg["dtC"]]), "ta", registry=reg)
+    B = ua(np.array(iv["B"], dtype=DT[cfg["dtB"]]), UNAME[cfg["uB"]], registry=reg)
+    Q = uq(float(iv["Q"][0]), UNAME[cfg["uQ"]], registry=reg)
+    C = ua(np.array(iv["C"], dtype=DT[cfg["dtC"]]), "ta", registry=reg)
     U1 = Unit("lb", registry=reg)
     U2 = Unit("la", registry=reg) ** 2 / U1
     return {"A": A, "V": V, "B": B, "Q": Q, "C": C, "R": None, "U1": U1, "U2": U2}
@@ -156,6 +159,9 @@ BIN = {"add": operator.add, "sub": operator.sub, "mul": operator.mul, "div": ope
 IBIN = {"add": operator.iadd, "sub": operator.isub, "mul": operator.imul, "div": operator.itruediv, "pow": operator.ipow}
 UF = {"add": "add", "sub": "subtract", "mul": "multiply", "div": "true_divide", "pow": "power", "lt": "less", "eq": "equal", "negative": "negative", "square": "square"}
 BASE = {"in_base": None, "in_mks": "mks", "in_cgs": "cgs", "convert_to_base": None, "convert_to_mks": "mks", "convert_to_cgs": "cgs"}
+
+
+PLAINCONV = ("convert_to_units", "convert_to_base", "convert_to_cgs", "convert_to_mks")
 
 
 class Missing(Exception):
@@ -251,7 +257,7 @@ def do_call(c, O):
         return x.simplify()
     if op == "units_simplify":
         return x.units.simplify()
-    if op in ("gufunc", "gunary", "garrfn", "gmethod"):
+    if op in ("gufunc", "gunary", "garrfn", "gmethod", "gorder"):
         scribble(generic_call(c, x, y))
         return None
     if op == "aunit":
@@ -310,6 +316,20 @@ def generic_call(c, x, y):
             raise ValueError(form)
     elif op == "gunary":
         res.append(getattr(np, f)(x))
+    elif op == "gorder":
+        # functions that sort / partition / select by rank: plain calls, no out=, no overwrite_input
+        if f in ("sort", "argsort", "median", "nanmedian", "unique", "nanmax", "nansum"):
+            res.append(getattr(np, f)(x))
+        elif f in ("partition", "argpartition"):
+            res.append(getattr(np, f)(x, 1))
+        elif f in ("percentile", "nanpercentile"):
+            res.append(getattr(np, f)(x, 40))
+        elif f in ("quantile", "nanquantile"):
+            res.append(getattr(np, f)(x, 0.4))
+        elif f == "m_argsort":
+            res.append(x.argsort())
+        else:
+            raise ValueError(f)
     elif op == "gmethod":
         if f in ("sum", "mean", "std", "var", "min", "max", "prod", "cumsum", "cumprod", "argsort", "tolist", "flatten", "to_ndarray"):
             res.append(getattr(x, f)())
@@ -403,6 +423,16 @@ def _gin(np, f, e, x, y, o, tgt):
     if f == "uf_outer":
         return np.multiply.outer(x, y, **kw)
     # ---- out= forms, one operand
+    if f in ("uf_mul_reduce_k", "uf_div_reduce_k", "uf_add_reduce_k", "m_prod_k", "m_sum_k"):
+        # a reduction into the first slot of the target buffer
+        k1 = {} if o is None else {"out": o[:1]}
+        if f.startswith("uf_"):
+            return {"uf_mul_reduce_k": np.multiply, "uf_div_reduce_k": np.divide, "uf_add_reduce_k": np.add}[f].reduce(x, keepdims=True, **k1)
+        return getattr(x, f[2:-2])(axis=0, keepdims=True, **k1)
+    if f == "uf_mul_accumulate":
+        return np.multiply.accumulate(x, **kw)
+    if f == "m_cumprod":
+        return x.cumprod(**kw)
     if f == "around":
         return np.around(x, **kw)
     if f == "take":
@@ -567,7 +597,7 @@ def observe(case):
     steps = []
     trunc = ""
     for l, c in enumerate(case["h"]):
-        tk = Tokens()
+        tk = Tokens(0.0 if c["op"] in PLAINCONV else 1e-15)
         try:
             for nm in (c["x"], c["y"], c["o"]):
                 if nm:
